@@ -10,11 +10,24 @@ VERIF = os.path.dirname(os.path.dirname(os.path.abspath(__file__)))
 TARGET = os.path.join(VERIF, ".cache", "kani-target")
 
 
-def _env(verif_dir=VERIF):
+def target_dir(repo="/repo"):
+    """One Kani build directory per source path.  cargo-kani keeps one output directory per (package id, profile)
+    under <target>/kani/<triple>/debug/build/<pkg>/<hash>/ and, when several harnesses are selected, picks up the
+    metadata of EVERY such directory: outputs of a build from another path of the same workspace (a scratch worktree
+    with a seeded change) then shadow the current ones (observed: a harness failing on the unchanged tree).  In-place
+    changes of one path reuse the same <hash> and overwrite it, so a single path is safe."""
+    repo = os.path.realpath(repo)
+    if repo == "/repo":
+        return TARGET
+    import hashlib
+    return TARGET + "-" + hashlib.sha1(repo.encode()).hexdigest()[:10]
+
+
+def _env(verif_dir=VERIF, repo="/repo"):
     e = dict(os.environ)
     e["CARGO_NET_OFFLINE"] = "true"
     e["DATAFUSION_VERIF_DIR"] = verif_dir
-    e["CARGO_TARGET_DIR"] = TARGET
+    e["CARGO_TARGET_DIR"] = target_dir(repo)
     e.pop("RUSTUP_TOOLCHAIN", None)
     return e
 
@@ -119,7 +132,7 @@ def run(repo, package, harnesses, jobs=8, timeout=3600, playback=False, verif_di
     cmd += extra or []
     t0 = time.time()
     try:
-        p = subprocess.run(cmd, cwd=repo, env=_env(verif_dir), capture_output=True, text=True, timeout=timeout)
+        p = subprocess.run(cmd, cwd=repo, env=_env(verif_dir, repo), capture_output=True, text=True, timeout=timeout)
         out = p.stdout + "\n" + p.stderr
         timed_out = False
     except subprocess.TimeoutExpired as e:
@@ -173,7 +186,7 @@ def playback_native(repo, package, module_rel, harness_mod, tests, timeout=3600)
     open(p, "w").write(s)
     cmd = ["cargo", "kani", "playback", "-Z", "concrete-playback", "-p", package, "--lib", "--",
            "kani_concrete_playback"]
-    pr = subprocess.run(cmd, cwd=repo, env=_env(tmp), capture_output=True, text=True, timeout=timeout)
+    pr = subprocess.run(cmd, cwd=repo, env=_env(tmp, repo), capture_output=True, text=True, timeout=timeout)
     both = pr.stdout + "\n" + pr.stderr
     keep = []
     lines = both.split("\n")
